@@ -44,6 +44,7 @@ def run(ctx) -> None:
     ctx.rule("e.uniform-rows", "every row-selection branch of Table.__getitem__ maps the SAME key over ALL columns, unfiltered, in order", 2)
     ctx.rule("f.name-resolution", "string indexing: exact stored name first over all columns, missing name raises (R-NAME)", 2)
     ctx.section("compare", _compare, ctx)
+    ctx.section("invert", _invert, ctx)
     ctx.section("index", _index, ctx)
     ctx.section("mask", _mask, ctx)
     ctx.section("missing", _missing, ctx)
@@ -165,6 +166,46 @@ def _compare(ctx) -> None:
                     problems.append(why)
             ctx.ob("a.compare-kernels", f, f"kernel:{k}", not problems,
                    "non-nullable bool; False for None; bool(op(x, y)) in operand order", s.node, message="; ".join(problems))
+
+
+def _invert(ctx) -> None:
+    """~ on a boolean vector is a logical operator like the others: a non-nullable bool mask, None counting as False - on the
+    construction sites of Vector.__invert__ (sites2)."""
+    from ..sites2 import all_sites2, comp_parts, const_dtype, leaves
+    from ..symx import NONE as SNONE
+    from ..symx import show
+    prog = ctx.prog
+    f = prog.func("vector.Vector.__invert__")
+    SELF = ("param", f.params[0])
+    problems = []
+    n = 0
+    for st in all_sites2(prog):
+        if st.top is not f or st.kind not in ("Vector", "cls"):
+            continue
+        n += 1
+        cd = const_dtype(st.dtype) if st.dtype is not None else None
+        if cd is None or cd[0] != ("name", "bool") or cd[1] is not False:
+            problems.append(f"the result of ~ on a boolean vector is given the dtype `{st.sh(st.dtype, 40)}`, not the constant non-nullable "
+                            f"<bool>: a nullable mask is refused by v[mask]")
+        for d in leaves(st.data):
+            cp = comp_parts(st.it, d)
+            if cp is None or len(cp[0]) != 1 or cp[1]:
+                problems.append(f"`{st.sh(d, 50)}` is not one value per element")
+                continue
+            (L,), extra, v, ev = cp
+            lp = st.it.loops[L]
+            x = ("elem", lp.iter, L)
+            if lp.iter not in (SELF, ("attr", SELF, "_underlying")):
+                problems.append(f"iterates `{show(lp.iter, st.it)[:30]}`, not self")
+            elif v != ("ifexp", ("cmp", "Is", x, SNONE), ("const", "bool", False), ("un", "Not", x)):
+                problems.append(f"element is `{show(v, st.it)[:60]}`, expected `False if x is None else not x` (a None element must count as "
+                                f"False, as for every comparison and logical operator)")
+    if n == 0:
+        # no special bool branch: ~ goes through the generic unary kernel only
+        ctx.ob("a.compare-kernels", f, "invert", True, "no boolean branch in __invert__")
+        return
+    ctx.ob("a.compare-kernels", f, "invert", not problems, "~bool vector: non-nullable <bool>, None -> False", f.node,
+           message="; ".join(problems[:2]))
 
 
 def _kernel_elt_term(s, v, xs, op, second, other_terms, date_kernel: bool) -> Optional[str]:
@@ -560,6 +601,10 @@ def _rows(ctx) -> None:
 
 _V, _T = "vector", "table"
 MUTANTS = [
+    dict(id="invert-keeps-nullable-dtype", module="vector", old="				dtype=DataType(bool, nullable=False),\n				name=self._name,", new="				dtype=self._dtype,\n				name=self._name,",
+         rules=["a.compare-kernels"], desc="part of the defect repaired by fix 488e73a"),
+    dict(id="invert-none-becomes-true", module="vector", old="				tuple(False if x is None else (not x) for x in self),", new="				tuple(not x for x in self),",
+         rules=["a.compare-kernels"], desc="part of the defect repaired by fix 488e73a"),
     dict(id="compare-nullable-true", module=_V, count=3, nth=2, old="return Vector(result_values, dtype=DataType(bool, nullable=False))",
          new="return Vector(result_values, dtype=DataType(bool, nullable=True))", rules=["a.compare-kernels"]),
     dict(id="copy-or-again", module=_V, old="		return Vector(list(self._underlying if new_values is None else new_values),",
